@@ -1,3 +1,4 @@
+import Mieru.Gen.Consts
 import Mieru.Proofs.Discovery
 import Mieru.Proofs.SrcCache
 /-!
@@ -456,5 +457,13 @@ example : (tryState 3 (fun _ => false) (fun i => i == 2 || i == 3) [3] true).use
 /-- stale / duplicate / out-of-range cached ids, every user tried once -/
 example : (tryState 3 (fun i => i == 1) (fun i => i == 3) [0, 9, 2, 2, 1, 1] false)
     = { user := some (3, .registryFallback), tried := [1, 2, 3] } := by decide
+
+/-- tie (T): the cache geometry and lifetime the model uses are the constants of the CURRENT source
+    (regenerated into `Mieru.Gen.Consts` from the compiled repository on every run) -/
+theorem cache_constants_match_source :
+    (Mieru.SrcCache.life : Int) = Mieru.Gen.sourceUserCacheLifeSeconds ∧
+    (Mieru.SrcCache.nWays : Int) = Mieru.Gen.sourceUserCacheWays ∧
+    (Mieru.SrcCache.nSlots : Int) = Mieru.Gen.sourceUserCacheUsers ∧
+    (Mieru.Discovery.slots : Int) = Mieru.Gen.sourceUserCacheUsers := by decide
 
 end Mieru.C07
